@@ -31,6 +31,19 @@ KERNELS = {"none": None, "Huber": lambda: pp.optim.kernel.Huber(0.3), "PseudoHub
            "Cauchy": lambda: pp.optim.kernel.Cauchy(0.7), "SoftLOne": lambda: pp.optim.kernel.SoftLOne(0.5)}
 
 
+class _SharedSpyCorrector(optspy.SpyCorrector):
+    """A single corrector serving all residuals: the i-th call of a step belongs to residual i."""
+
+    def __init__(self, corrector, trace, nres):
+        super().__init__(corrector, trace, 0)
+        self.nres, self.calls = nres, 0
+
+    def forward(self, R, J):
+        self.idx = self.calls % self.nres
+        self.calls += 1
+        return super().forward(R, J)
+
+
 def build(rng, cfg, spec, trace, fail_at=None):
     model = spec["model"]
     optref = [None]
@@ -43,6 +56,10 @@ def build(rng, cfg, spec, trace, fail_at=None):
         C = pp.optim.corrector.FastTriggs if cfg["corrector"] == "FastTriggs" else pp.optim.corrector.Triggs
         ks = kernels if isinstance(kernels, list) else [kernels] * nres
         correctors = [optspy.SpyCorrector(C(k), trace, i) for i, k in enumerate(ks)]
+        if not isinstance(kernels, list) and nres > 1 and cfg.get("single_corrector"):
+            # ONE corrector object (not a list) for a model with several residuals, as documented: it corrects every residual in turn
+            correctors = _SharedSpyCorrector(C(kernels), trace, nres)
+            cfg["_one_corrector_for_several_residuals"] = True
     S = pp.optim.solver
     base = {"PINV": S.PINV, "LSTSQ": S.LSTSQ, "Cholesky": S.Cholesky, "CG": lambda: S.CG(tol=1e-12)}[cfg["solver"]]()
     solver = optspy.SpySolver(base, trace, optref, fail_at=fail_at)
@@ -74,7 +91,7 @@ def build(rng, cfg, spec, trace, fail_at=None):
 def config(rng, opt=None):
     opt = opt or ["GN", "LM"][int(rng.integers(2))]
     cfg = {"opt": opt, "kernel": list(KERNELS)[int(rng.integers(len(KERNELS)))] if rng.random() < 0.5 else "none",
-           "corrector": ["FastTriggs", "Triggs"][int(rng.integers(2))], "per_res": bool(rng.integers(2)),
+           "corrector": ["FastTriggs", "Triggs"][int(rng.integers(2))], "per_res": bool(rng.integers(2)), "single_corrector": bool(rng.integers(2)),
            "vectorize": bool(rng.integers(2)), "weight": rng.random() < 0.5, "weight_at": ["init", "step", "both"][int(rng.integers(3))],
            "input_as": ["tuple", "tuple", "dict", "single"][int(rng.integers(4))]}
     if opt == "GN":
@@ -283,6 +300,8 @@ def check_step(ck, rng, spec, cfg, case_key):
                               at_first_update={n_: upd[0]["before"][n_].tolist() for n_ in before if before[n_].numel() <= 12}))
     if spec["desc"].startswith("alias_output"):
         ck.mark("model/residual-is-a-parameter")
+    if cfg.get("_one_corrector_for_several_residuals"):
+        ck.mark("corrector/one-object-for-several-residuals")
     ck.count("update", regime, key=case_key)
     train = [n for n, p in model.named_parameters() if p.requires_grad]
     for n, p in model.named_parameters():
@@ -460,7 +479,8 @@ def run(ck):
         check_step(ck, rng, spec, cfg, (ck.shard, i, spec["desc"]))
     for t in templates:
         ck.require("template/" + t)
-    ck.require("flags/frozen_after_construction", "flags/unfrozen_after_construction", "model/residual-is-a-parameter")
+    ck.require("flags/frozen_after_construction", "flags/unfrozen_after_construction", "model/residual-is-a-parameter",
+               "corrector/one-object-for-several-residuals")
     ck.require("update/group_retraction", "update/frozen_seen", "clamp/min_binds", "clamp/max_binds", "system/second_step_after_inplace_weight_update",
                "weight/given_at_init_and_step", "input/dict", "input/single")
     ck.floor("assemble", 30)
